@@ -35,8 +35,11 @@ pub fn get_num_cells(resolution: i32) -> u64 {
         return 17293822569102705000;
     }
 
-    // For lower resolutions, exact calculation works fine
-    60 * (4_u64.pow((resolution - 1) as u32))
+    // For lower resolutions, exact calculation works fine. Beyond the supported range the count
+    // no longer fits in 64 bits, so saturate instead of overflowing
+    4_u64
+        .saturating_pow((resolution - 1) as u32)
+        .saturating_mul(60)
 }
 
 /// Returns the number of children between two resolutions.
